@@ -110,6 +110,24 @@ Section AssocPerm.
   Qed.
 End AssocPerm.
 
+(* ----- the regenerated tables say what this development assumes about the code ----- *)
+Lemma put_guards_order :
+  fileStorePut_guards = [b "DisablePut"; b "call:validateCredentialFormat"; b "utf8:serverAddress"].
+Proof. reflexivity. Qed.
+
+Lemma put_accepts_spec a c :
+  put_accepts a c =
+  negb (contains colon (c_user c)) && valid_utf8 a && valid_utf8 (c_refresh c) && valid_utf8 (c_access c).
+Proof.
+  destruct c as [u p r t].
+  cbv - [contains valid_utf8].
+  destruct (contains 58 u), (valid_utf8 a), (valid_utf8 r), (valid_utf8 t); reflexivity.
+Qed.
+
+Lemma to_hostname_spec addr :
+  to_hostname addr = cut_before slash (trim_prefix (b "https://") (trim_prefix (b "http://") addr)).
+Proof. reflexivity. Qed.
+
 Lemma auths_neq_cs : configFieldAuths <> configFieldCredentialsStore.
 Proof. intro H. apply str_eqb_spec in H. vm_compute in H. discriminate. Qed.
 Lemma auths_neq_helpers : configFieldAuths <> configFieldCredentialHelpers.
@@ -260,12 +278,12 @@ Section Proofs.
 
   Lemma put_accepts_colon a c : put_accepts a c = true -> contains colon (c_user c) = false.
   Proof.
-    unfold put_accepts. intro H. apply andb_true_iff in H as [H _]. apply andb_true_iff in H as [H _].
+    rewrite put_accepts_spec. intro H. apply andb_true_iff in H as [H _]. apply andb_true_iff in H as [H _].
     apply andb_true_iff in H as [H _]. now apply negb_true_iff in H.
   Qed.
 
   Lemma colon_not_accepted a c : contains colon (c_user c) = true -> put_accepts a c = false.
-  Proof. intro H. unfold put_accepts. now rewrite H. Qed.
+  Proof. intro H. rewrite put_accepts_spec. now rewrite H. Qed.
 
   Lemma put_refused st a c :
     put_accepts a c = false -> step st (Put a c) = (st, RErrBadCred).
